@@ -196,6 +196,14 @@ def d2_targets(chk: Check) -> None:
     loop = parent(q[0]) if q else None
     relay = isinstance(loop, ast.For) and len(loop.body) == 1 and \
         ".append({})".format(src(loop.target)) in src(loop.body[0])
+    if isinstance(loop, ast.comprehension):
+        # [nc for nc in get_nodes(...)]: the same relay as an expression
+        comp = parent(loop)
+        relay = isinstance(comp, ast.ListComp) and not loop.ifs and \
+            len(comp.generators) == 1 and src(comp.elt) == src(loop.target)
+    elif isinstance(loop, ast.Call) and src(loop.func) == "list" and \
+            len(loop.args) == 1:
+        relay = True        # list(get_nodes(...))
     if ok and relay:
         chk.ok("C11-D2a", tg, q[0], src(q[0]),
                "optional-match query seeded with the right-hand document; "
@@ -705,7 +713,32 @@ def d9_every_match_is_a_target(chk: Check) -> None:
                     for a in ancestors(c)
                     if isinstance(a, ast.For) and
                     isinstance(a.iter, ast.Call))]
-    if not apps:
+    # the same gathering written as a comprehension / list(<query>)
+    comps = [c for c in walk_local(fi.node)
+             if isinstance(c, ast.ListComp) and len(c.generators) == 1 and
+             isinstance(c.generators[0].iter, ast.Call) and
+             src(c.generators[0].iter.func).endswith(".get_nodes")]
+    whole = [c for c in walk_local(fi.node) if isinstance(c, ast.Call) and
+             src(c.func) == "list" and len(c.args) == 1 and
+             isinstance(c.args[0], ast.Call) and
+             src(c.args[0].func).endswith(".get_nodes")]
+    for c in comps:
+        gen = c.generators[0]
+        byvalue = [x for t in gen.ifs for x in ast.walk(t)
+                   if isinstance(x, ast.Compare) and any(
+                       isinstance(o, (ast.In, ast.NotIn, ast.Eq, ast.NotEq))
+                       for o in x.ops)]
+        text = "[{} for ... in get_nodes(...)]".format(src(c.elt))
+        if byvalue or gen.ifs:
+            chk.fail("C11-D9", fi, c, text,
+                     "a match is kept only when {}: a second target is "
+                     "silently not merged into".format(
+                         src(gen.ifs[0])[:60]))
+        else:
+            chk.ok("C11-D9", fi, c, text, "every match is kept")
+    for c in whole:
+        chk.ok("C11-D9", fi, c, "list(get_nodes(...))", "every match is kept")
+    if not apps and not comps and not whole:
         raise AnalysisError("gathering append of _get_merge_target_nodes "
                             "not found")
     for c in apps:
